@@ -150,6 +150,27 @@ Theorem C01_src_all_successors : forall h t,
   src_all_successors (S (length h)) h t = match all_succs h t with Ok l => Ok (dedup l) | Err => Err | Crash k => Crash k end.
 Proof. exact src_all_successors_eq. Qed.
 
+(* ---- second tranche: the public parent, Task.all_parents and the link guard of the parent / children setters -----
+   [hid_tid h]: the hidden root of a WBS is the task whose id is sys.maxsize (the code recognises it by the id, the model
+   by a flag; WF does not forbid a user task with that id, so it is a hypothesis).  [upto_hidden]: the raw ancestor chain
+   up to, and without, the first hidden task.  The guard __check_no_links_with(new_parent), translated from its current
+   source text, rejects exactly when the model's [links_bad] does - in every well-formed state, for every task and
+   every future parent. *)
+From PJ Require Import Graph.AncLemmas Graph.SrcGraphEquiv2.
+
+Theorem C01_src_parent : forall h t, hid_tid h -> src_parent h t = Ok (pubpar h t).
+Proof. exact src_parent_eq. Qed.
+
+Theorem C01_src_all_parents : forall h t, hid_tid h -> acyclic h ->
+  src_all_parents (S (S (length h))) h t
+  = match anc h t with Ok a => Ok (upto_hidden h a) | Err => Err | Crash k => Crash k end.
+Proof. exact src_all_parents_eq. Qed.
+
+Theorem C01_src_check_no_links_with : forall s t p a, WF s -> hid_tid (hp s) -> anc (hp s) p = Ok a ->
+  src_check_no_links_with (S (S (length (hp s)))) (hp s) t p
+  = if links_bad (hp s) t (p :: a) then Err else Ok tt.
+Proof. exact src_check_no_links_with_eq. Qed.
+
 Print Assumptions C01_step.
 Print Assumptions C01_step_shape.
 Print Assumptions C01_public_stays_public.
@@ -170,3 +191,6 @@ Print Assumptions C01_src_get_successor.
 Print Assumptions C01_src_unique_tasks.
 Print Assumptions C01_src_all_predecessors.
 Print Assumptions C01_src_all_successors.
+Print Assumptions C01_src_parent.
+Print Assumptions C01_src_all_parents.
+Print Assumptions C01_src_check_no_links_with.
